@@ -70,6 +70,7 @@ struct OpHeapCtx {
     Rng faultRng{1};
     int64_t allocCount = 0, mallocCount = 0, callocCount = 0, frees = 0;
     int64_t failed = 0;
+    int64_t bypassAllocs = 0;  // requests the library made with the plain libc allocator (not through the seam)
     int64_t fired[F_KINDS] = {0};
     int64_t liveBytesOp = 0;  // live payload bytes allocated by this op
     std::vector<AllocRec> allocs;
@@ -114,4 +115,8 @@ void *h3sim_malloc(size_t size);
 void *h3sim_calloc(size_t num, size_t size);
 void *h3sim_realloc(void *ptr, size_t size);
 void h3sim_free(void *ptr);
+void *h3byp_malloc(size_t size);
+void *h3byp_calloc(size_t num, size_t size);
+void *h3byp_realloc(void *ptr, size_t size);
+void h3byp_free(void *ptr);
 }
